@@ -230,7 +230,8 @@ impl fmt::Display for Formatter {
                     }
                     Token::WeekdayDecimal => {
                         write_sep(f, i, &self.format)?;
-                        write!(f, "{}", self.epoch.weekday().to_c89_weekday())?
+                        let weekday = Epoch::from_gregorian_tai_at_midnight(y, mm, dd).weekday();
+                        write!(f, "{}", weekday.to_c89_weekday())?
                     }
                     Token::MonthName => {
                         write_sep(f, i, &self.format)?;
@@ -295,7 +296,11 @@ impl fmt::Display for Formatter {
                     }
                     Token::WeekdayDecimal => {
                         write_sep(f, i, &self.format)?;
-                        write!(f, "{}", self.epoch.weekday().to_c89_weekday())?
+                        // The weekday of the date in the time scale of the epoch, as for %A and %a.
+                        let (y, mm, dd, _, _, _, _) =
+                            Epoch::compute_gregorian(self.epoch.duration, self.epoch.time_scale);
+                        let weekday = Epoch::from_gregorian_tai_at_midnight(y, mm, dd).weekday();
+                        write!(f, "{}", weekday.to_c89_weekday())?
                     }
                     _ => unreachable!(),
                 };
